@@ -46,12 +46,13 @@ TReset == /\ IsEvent("Reset")
           /\ chain' = <<>> /\ hashAt' = <<GenesisId>> /\ hdrOf' = (GenesisId :> 0) /\ bodyOf' = (GenesisId :> <<>>)
           /\ txAt' = <<>> /\ blkCur' = <<0, GenesisId>> /\ bloomAt' = <<{}>> /\ bitIdx' = <<>>
           /\ stApplied' = <<GenesisId>> /\ evTx' = {} /\ evCur' = 0 /\ memCur' = <<0, GenesisId>>
-          /\ hidx' = [first |-> 0, last |-> 0, m |-> (0 :> GenesisId)] /\ bcache' = (0 :> {})
+          /\ hidx' = [first |-> 0, last |-> 0, m |-> (0 :> GenesisId)] /\ bcache' = (0 :> {}) /\ hcache' = {}
           /\ fresh' = Ev.fresh /\ fstart' = (IF Ev.fresh THEN 1 ELSE 0) /\ fmem' = 0 /\ halt' = FALSE
           /\ act' = [name |-> "Init"]
 TNext == \/ TReset
          \/ IsEvent("Submit") /\ Submit(Ev.path, ShapeOf(Ev.shape), Ev.mut) /\ ResOK /\ ObsOK
          \/ IsEvent("PreExec") /\ PreExec(Ev.kind) /\ Ev.changed = <<>> /\ ObsOK
+         \/ IsEvent("SyncHeader") /\ SyncHeader(ShapeOf(Ev.shape)) /\ Ev.res = "ok" /\ Ev.changed = <<>> /\ ObsOK
          \/ IsEvent("Restart") /\ Restart /\ Ev.res = "ok" /\ ObsOK
 TSpec == TInit /\ [][TNext]_tvars
 =============================================================================
